@@ -94,7 +94,7 @@ def oracle(case, line):
     if case.cmd == "spans":
         if not line.startswith("ok "):
             return "valid document rejected"
-        for k in ("bounds", "boundary", "nest", "reparse", "despan"):
+        for k in ("bounds", "boundary", "nest", "reparse", "despan", "shape"):
             if f.get(k) != "ok":
                 return "span check failed: %s=%s" % (k, f.get(k))
         return None
